@@ -409,7 +409,7 @@ def check_helper(rep, repo, helper, N, r1='C16.R1', r3='C16.R3', r6='C16.R6'):
                   got=show(val).replace(show(b), 'it'), want=show(want).replace(show(b), 'it'), construct='extras of %s flag: %s' % (case, show(val).replace(show(b), 'it')))
 
 
-def check_extras_not_consumed(rep, repo):
+def check_extras_not_consumed(rep, repo, rule='C16.R6'):
     """R6 (history): the extras stay with their criterion for every later solve - nothing on the solve / getter path pops,
     clears or overwrites the parsed option containers (mutation summaries of C18.R3)"""
     from ..effects import Effects
@@ -417,10 +417,10 @@ def check_extras_not_consumed(rep, repo):
     E = Effects(repo)
     solve = repo.method('Solver', 'solve')
     getters = [repo.method('Solver', g) for g in GETTERS]
-    check_options_readonly(rep, repo, E, solve, getters, len(E.analyse(solve)), 'C16.R6')
+    check_options_readonly(rep, repo, E, solve, getters, len(E.analyse(solve)), rule)
 
 
-def check_extras_isolation(rep, repo, tier):
+def check_extras_isolation(rep, repo, tier, rule='C16.R6'):
     """R6 (consumer side): a criterion given no optional arguments must not see those of an earlier criterion.  Ordered
     pairs (X with distinctly named extras, Y with none) are specialised; nothing in Y's iteration may mention X's extras."""
     listy = [n for n, sp in spec.CRITERIA.items() if sp['nextras'] > 0]
@@ -434,7 +434,7 @@ def check_extras_isolation(rep, repo, tier):
         try:
             r = lpfacts.get_run(repo, False, False, [(x, ex), (y, ())])
         except AnalysisError as u:
-            rep.inconclusive('C16.R6', where, 'ordered pair [%s, %s] is inside the interpreted fragment' % (x, y), got=str(u)[:120])
+            rep.inconclusive(rule, where, 'ordered pair [%s, %s] is inside the interpreted fragment' % (x, y), got=str(u)[:120])
             return
         for ev in r.events:
             if not ev.iters:
@@ -461,10 +461,10 @@ def check_extras_isolation(rep, repo, tier):
     rep.count('extras_isolation_pairs', len(pairs))
     if bad:
         x, y, ev = bad[0]
-        rep.fail('C16.R6', ev.where, 'a criterion without optional arguments uses its documented defaults, not the arguments of an earlier criterion', got='-%s <a> <b> ... -%s <position only>: %s of %s mentions the arguments of %s' % (
+        rep.fail(rule, ev.where, 'a criterion without optional arguments uses its documented defaults, not the arguments of an earlier criterion', got='-%s <a> <b> ... -%s <position only>: %s of %s mentions the arguments of %s' % (
                  spec.CRITERIA[x]['dest'], spec.CRITERIA[y]['dest'], ev.kind, y, x), want='extras stay with their own criterion', construct='extras of %s leak into %s' % (x, y), loc=ev.loc)
     else:
-        rep.ok('C16.R6', where, 'in %d ordered pairs (criterion with extras, criterion without) the second never sees the first one\'s extras' % len(pairs), got='no leak')
+        rep.ok(rule, where, 'in %d ordered pairs (criterion with extras, criterion without) the second never sees the first one\'s extras' % len(pairs), got='no leak')
 
 
 def check_info_lines(rep, repo, tier):
